@@ -292,3 +292,22 @@ func NewWriteCoilsRequest(f spec.Framing, unit uint8, tx uint16, addr uint16, co
 	}
 	return nilIfErr(packet.NewWriteMultipleCoilsRequestRTU(unit, addr, coils))
 }
+
+// SetProtocolID writes v into the exported MBAPHeader.ProtocolID field of a TCP request object (what a caller that fills or copies
+// header fields by hand may leave there); it reports whether the field was found.
+func SetProtocolID(q packet.Request, v uint16) bool {
+	rv := reflect.ValueOf(q)
+	if rv.Kind() != reflect.Ptr || rv.IsNil() {
+		return false
+	}
+	f := rv.Elem().FieldByName("MBAPHeader")
+	if !f.IsValid() {
+		return false
+	}
+	pf := f.FieldByName("ProtocolID")
+	if !pf.IsValid() || !pf.CanSet() {
+		return false
+	}
+	pf.SetUint(uint64(v))
+	return true
+}
